@@ -85,7 +85,6 @@ pub enum Positions {
     #[allow(dead_code)]
     AllAlphabetOnly,
     /// first, second, middle, last-but-one and last byte of every field
-    #[allow(dead_code)]
     FieldEdges,
 }
 
@@ -323,7 +322,9 @@ pub fn guards(rep: &mut Report, always: &[&str], if_clean: &[&str]) {
     for c in always {
         rep.require_nonzero(c);
     }
-    if rep.violations().is_empty() {
+    let kf = mcx::KnownFindings::load(&rep.args.verif_dir);
+    let prop = rep.args.prop.clone();
+    if rep.violations().iter().all(|v| kf.lookup(&prop, &v.key).is_some()) {
         for c in if_clean {
             rep.require_nonzero(c);
         }
